@@ -24,6 +24,23 @@ inductive Opt where
   | inheritErrexit
   deriving DecidableEq, Repr
 
+/-- simple commands that fail part-way: each takes a different exit from `execute_command` /
+`SimpleCommand::execute` -/
+inductive FaultKind where
+  | readonlyAssign    -- `RO=1 true`: the prefix assignment fails; the command-scope guard is dropped
+  | notFound          -- `nosuchcmd`: scope popped on the not-found path, status 127
+  | redirFail         -- `true < /nonexistent`: redirection error before any scope is pushed, status 1
+  | tempBuiltin       -- `X=1 true`: builtin with a temporary assignment (normal path)
+  | tempExternal      -- `X=1 /bin/true`: external with a temporary assignment
+  deriving DecidableEq, Repr
+
+def FaultKind.code : FaultKind → Nat
+  | .readonlyAssign => 0     -- brush shadows the readonly name in the command scope (recorded under C09); bash prints a message; both give 0
+  | .notFound => 127
+  | .redirFail => 1
+  | .tempBuiltin => 0
+  | .tempExternal => 0
+
 mutual
 inductive Cmd where
   | leaf (id : Nat) (codes : List Nat)      -- prints m<id>; k-th execution returns codes[min k (len-1)]
@@ -47,6 +64,8 @@ inductive Cmd where
   | cmdsubst (c : Cmd)                      -- `v=$(c)`: an assignment-only command whose value is a substitution
   | evalC (c : Cmd)                         -- `eval '<c>'`
   | pipe (codes : List Nat) (last : Cmd)    -- `Q c1 | Q c2 | … | last`: silent stages returning c_i, then `last`
+  | fault (k : FaultKind)                   -- a simple command that fails before or instead of running (C18)
+  | callT (f : Nat)                         -- `X=1 f<f>`: function call with a temporary assignment
 inductive Cmds where
   | nil
   | cons (c : Cmd) (cs : Cmds)
@@ -75,7 +94,8 @@ structure St where
   counts : List (Nat × Nat) := []   -- leaf id ↦ executions so far
   trace  : List Tr := []            -- stdout
   last   : Nat := 0                 -- `$?`
-  fdepth : Nat := 0                 -- function nesting (`in_function`)
+  fdepth : Nat := 0                 -- function nesting (`in_function`; call-stack depth)
+  scope  : Nat := 0                 -- variable-scope frames pushed on top of the global one
   errexit : Bool := false
   pipefail : Bool := false
   inheritErrexit : Bool := false
@@ -227,10 +247,12 @@ def exec : Nat → List Cmd → Bool → Cmd → St → Out
       match fs[f]? with
       | none => some (post sup s { code := 127, flow := .normal })
       | some body =>
-        match exec fuel fs sup body { s with fdepth := s.fdepth + 1 } with
+        -- execute_command pushes a Command scope (popped by post_execute); enter_function pushes a call
+        -- frame and a Local scope (leave_function pops both, whatever the body's result)
+        match exec fuel fs sup body { s with fdepth := s.fdepth + 1, scope := s.scope + 2 } with
         | none => none
         | some (s1, r1) =>
-          let s2 := { s1 with fdepth := s1.fdepth - 1 }
+          let s2 := { s1 with fdepth := s1.fdepth - 1, scope := s1.scope - 2 }
           match r1.flow with
           | .brk _ => some (post sup s2 { code := 99, flow := .normal })   -- "not yet implemented"
           | .cont _ => some (post sup s2 { code := 99, flow := .normal })
@@ -252,6 +274,12 @@ def exec : Nat → List Cmd → Bool → Cmd → St → Out
       let c := match code with | some v => low8 v | none => s.last
       some (post sup s { code := c, flow := .exit })
     | .setOpt o on => some (post sup (s.setOpt o on) { code := 0, flow := .normal })
+    | .fault k =>
+      -- every exit of execute_command / SimpleCommand::execute gives the Command scope back
+      let pushed := match k with | .redirFail => s | _ => { s with scope := s.scope + 1 }
+      let popped := match k with | .redirFail => pushed | _ => { pushed with scope := pushed.scope - 1 }
+      some (post sup popped { code := k.code, flow := .normal })
+    | .callT f => exec fuel fs sup (.call f) s
     | .cmdsubst c =>
       -- invoke_command_in_subshell_and_get_output: a clone with errexit off unless inherit_errexit
       match exec fuel fs sup c { s with errexit := s.errexit && s.inheritErrexit } with
